@@ -2,7 +2,9 @@
    Model: coq/model/ParamShift.v (ShiftedParameters._get_derivative bookkeeping, evaluation of a shift
    object, expectation functions of sinusoidal form). *)
 From Coq Require Import ZArith List Reals.
-From QPM Require Import ParamShift NumGrad.
+From Coq Require Import Lia.
+From QP Require Import Cx Asum Apply.
+From QPM Require Import ParamShift NumGrad Pauli PauliRot Expect Sinus.
 Import ListNotations.
 Local Open Scope R_scope.
 
@@ -79,3 +81,32 @@ Example c09_example :
   let T := Node (Node (Leaf 0) (Leaf 1) (Leaf 0)) (Leaf 0) (Leaf 2) in
   (depth T <= 2)%nat /\ teval T 0 (fun _ => 0) = 2.
 Proof. cbn. split; [auto|]. rewrite cos_0, sin_0. ring. Qed.
+
+(* ------------------------------------------------------------------ circuits really are trigonometric trees *)
+(* The expectation value <psi_f| Obs |psi_f> of ANY circuit made of fixed linear gates and rotations exp(-i f_k/2 P_k) about
+   Pauli strings (RX, RY, RZ, PauliRotation; the k-th rotation has the raw gate angle f k) is a trigonometric tree in the
+   angles - the hypothesis of the parameter-shift theorems above - for circuits of any length on registers of any size,
+   any input state and any linear observable *)
+Theorem circuit_expectation_is_a_trigonometric_tree :
+  forall (Q : list nat) (b0 : Asum.Basis) (Obs : Apply.Op), linear Obs ->
+  forall items, Forall item_ok items ->
+  forall k phi chi, exists T : ctree, (cdepth T <= nrot items)%nat /\ forall f, form Q b0 Obs items k f phi chi = ceval T k f.
+Proof. exact expectation_is_a_trigonometric_tree. Qed.
+Print Assumptions circuit_expectation_is_a_trigonometric_tree.
+
+(* hence the parameter-shift derivative (any direction d in raw-angle space, i.e. any linear parameter mapping; any shift
+   dictionary S) of the expectation value of such a circuit is exact *)
+Theorem circuit_expectation_parameter_shift_exact :
+  forall (Q : list nat) (b0 : Asum.Basis) (Obs : Apply.Op), linear Obs ->
+  forall items, Forall item_ok items -> forall (psi : Apply.St) (P : nat), (nrot items <= P)%nat ->
+  forall x d (S : sdict) t0,
+  let E := fun f : nat -> R => fst (form Q b0 Obs items 0 f psi psi) in
+  derivable_pt_lim (fun t => deval E (line x d t) S) t0 (deval E (line x d t0) (get_derivative (seq 0 P) d S)).
+Proof.
+  intros Q b0 Obs HO items Hok psi P HP x d S t0 E.
+  destruct (expectation_is_a_trigonometric_tree Q b0 Obs HO items Hok 0%nat psi psi) as [T [Hd HT]].
+  assert (EE : E = teval (fst T) 0).
+  { apply FunctionalExtensionality.functional_extensionality; intros f. unfold E. rewrite HT. reflexivity. }
+  rewrite EE. apply shift_derivative_exact. unfold cdepth in Hd. lia.
+Qed.
+Print Assumptions circuit_expectation_parameter_shift_exact.
